@@ -40,10 +40,13 @@ def _task(contract_idx, prop, tier, repo, budget_scale, conn):
         out['contract'] = ct.ident()
         from contracts import _summaries
         summ = dict(_summaries.for_contract(ct))
+        sym.MODE[0] = 'euf' if ct.params.get('_euf') else 'real'
+        if ct.params.get('_euf'):
+            summ = {}     # exactness clauses execute everything in place: the terms must be the code's own
         info = {'inlined': set(), 'summarised': set(), 'inputs': {}, 'warn_calls': 0, 'notes': []}
 
         def harness(ctx):
-            c = dsl.SymContext(ctx, ct, summaries=summ)
+            c = dsl.SymContext(ctx, ct, summaries=dict(summ))
             try:
                 ct.fn(c, **{k: v for k, v in ct.params.items() if not k.startswith('_')})
             except I.PyRaise as pr:
@@ -273,6 +276,7 @@ def main(argv=None):
     all_summ = set()
     axioms = set()
     vacuous = []
+    pending_replays = []
     for r in results:
         ct = contracts[r['idx']]
         if r.get('error'):
@@ -310,23 +314,34 @@ def main(argv=None):
             elif rec['status'] == 'sat':
                 kf = match_known(prop, rec, known)
                 path = write_replay(prop, rec, ct, r.get('inputs', {}), a.repo)
-                try:
-                    rr = run_replay(path, a.repo)
-                except Exception as e:
-                    rr = {'reproduced': False, 'error': str(e)}
-                if kf is not None:
-                    known_hits.append({'finding': kf, 'obligation': rec['name'], 'replay': path,
-                                       'reproduced': rr.get('reproduced')})
-                else:
+                pending_replays.append((kf, rec, path))
+                if kf is None:
                     n_ob += 1
-                    violations.append({'obligation': rec['name'], 'replay': path, 'reproduced': bool(rr.get('reproduced')),
-                                       'meta': rec.get('meta'), 'backend': rec['backend'], 'detail': rr})
             else:
                 n_ob += 1
                 undecided.append({'obligation': rec['name'], 'reason': 'solver unknown (%s)' % ','.join(rec['tried'])})
         per_contract.append({'contract': ct.ident(), 'level': ct.level, 'paths': r.get('paths'), 'obligations': len(r['obligations']),
                              'discharged': cdis, 'explore_s': r.get('explore_s'), 'wall_s': r.get('wall'),
                              'reachable_paths': rp, 'warn_calls_dropped': r.get('warn_calls', 0)})
+    # replay every counter-model on the real code (concurrently)
+    if pending_replays:
+        from concurrent.futures import ThreadPoolExecutor
+
+        def _rp(item):
+            kf, rec, path = item
+            try:
+                return run_replay(path, a.repo)
+            except Exception as e:
+                return {'reproduced': False, 'error': str(e)}
+        with ThreadPoolExecutor(max_workers=NPROC) as ex:
+            rrs = list(ex.map(_rp, pending_replays))
+        for (kf, rec, path), rr in zip(pending_replays, rrs):
+            if kf is not None:
+                known_hits.append({'finding': kf, 'obligation': rec['name'], 'replay': path,
+                                   'reproduced': rr.get('reproduced')})
+            else:
+                violations.append({'obligation': rec['name'], 'replay': path, 'reproduced': bool(rr.get('reproduced')),
+                                   'meta': rec.get('meta'), 'backend': rec['backend'], 'detail': rr})
     # bounded companions (never counted as proved)
     bounded = None
     if not a.no_bounded and not errors:
